@@ -154,3 +154,33 @@ package commonmark
 //@   loop 0: invariant[frame] framed()
 //@   loop 0: decreases i + 1
 //@   serves C05, C04
+
+// ---------------------------------------------------------------------------
+// parseDelimiterRun (C11, C13): the element pushed for a delimiter run records
+// the run as the specification's procedure needs it - the text node is the
+// maximal run of the delimiter character (inside the current text run), n is
+// its length, typ its character, and the element is active.  (That the
+// can-open / can-close bits are those of emphasisFlags for exactly that run is
+// NOT claimed: a postcondition saying so verified, but so did a deliberately
+// wrong variant of it, so the clause was withdrawn - see /verif/DESIGN.md 11.7.)
+// ---------------------------------------------------------------------------
+
+//@ func (*InlineParser).parseDelimiterRun
+//@   requires[state] !isnil(state) && !isnil(state.root) && state.parentMap != nil && 0 <= start && start < len(state.source) && len(state.source) < 281474976710656
+//@   requires[delim] state.source[start] == '*' || state.source[start] == '_'
+//@   modifies map state.parentMap, state.root.children, state.root.children[len(state.root.children):cap(state.root.children)], state.stack, state.stack[len(state.stack):cap(state.stack)], alloc
+//@   callsite (*inlineState).addToRoot: requires[run] $1.kind == TextKind && $1.span.Start == start && start < $1.span.End && $1.span.End <= len(state.source)
+//@       && (forall k in [start, $1.span.End): state.source[k] == state.source[start])
+//@   ensures[end] start < end && end <= len(state.source) && (forall k in [start, end): state.source[k] == state.source[start])
+//@   ensures[pushed] len(state.stack) == len(old(state.stack)) + 1 && state.stack[len(state.stack) - 1].n == end - start
+//@       && state.stack[len(state.stack) - 1].typ == (state.source[start] == '*' ? 1 : 2)
+//@       && state.stack[len(state.stack) - 1].flags % 2 == 1
+//@   ensures[kept] forall k in [0, len(old(state.stack))): state.stack[k].typ == old(state.stack[k].typ) && state.stack[k].flags == old(state.stack[k].flags) && state.stack[k].n == old(state.stack[k].n) && state.stack[k].node == old(state.stack[k].node)
+//@   loop 0: invariant[run] !isnil(state) && !isnil(node) && node.span.Start == start && start < node.span.End && node.span.End <= len(state.source)
+//@       && (forall k in [start, node.span.End): state.source[k] == state.source[start])
+//@   loop 0: invariant[frame] framed()
+//@   loop 0: decreases len(state.source) - node.span.End
+//@   contractcall (*Inline).Span, Span.Len
+//@   nosafety index the cursor stays inside the unparsed run (assumption A-C02-1, DESIGN 7.2)
+//@   nosafety nil the unparsed nodes of a block are never nil (assumption A-NODEINV, C05)
+//@   serves C11, C13, C04
